@@ -54,7 +54,7 @@ func C08(r *core.Report) {
 		"R1 every dereference of an optional request pointer (jsonrpc2.Request.Params handed to the parse* functions, pointer-typed fields of old_faithful_grpc messages and of the parsed request structs, parameters that receive them) is dominated by a nil test, or the field is assigned on every path of its constructor; " +
 		"R2 no Must* helper is applied to a non-constant value; R3 every return of a handle* method either carries a non-nil *jsonrpc2.Error or is preceded on all paths by a Reply call; " +
 		"R4 a value returned together with an error is not used on a path that comes from the err != nil branch; R5 a pointer field of a locally built response is dereferenced only after being assigned on all paths; " +
-		"R6 no single-value type assertion / explicit panic on request-tainted values. R2 also covers short aliases in dependencies that hand their parameter to a Must* helper (solana.MPK), found by parsing the dependency's source in the module cache. Not decided: resource exhaustion, panics inside dependencies, crashes that need malformed archive data (C12)."
+		"R6 no single-value type assertion / explicit panic on request-tainted values. R2 also covers short aliases in dependencies that hand their parameter to a Must* helper (solana.MPK), found by parsing the dependency's source in the module cache. R9 no integer division or modulo in the request handlers has a request-derived divisor unless a dominating comparison excludes zero (for a difference a-b: a > b or a != b). Not decided: resource exhaustion, panics inside dependencies, crashes that need malformed archive data (C12)."
 	r.Assumptions = []string{"gRPC never delivers a nil request message; optional scalar fields and nested messages may be nil", "generated proto getters (GetX) are nil-receiver safe",
 		"sourcegraph/jsonrpc2 leaves Request.Params nil when the member is absent"}
 	reach, fns := c08Scope(r)
@@ -69,6 +69,7 @@ func C08(r *core.Report) {
 	c08LocalPtrField(r, fns)
 	c08Assertions(r, fns)
 	c08Bounds(r, fns)
+	c08NoDivisionByRequestValue(r, fns)
 	r.Floor("C08.R1", 8)
 	r.Floor("C08.R3", 20)
 	r.Floor("C08.R6", 4)
